@@ -282,7 +282,7 @@ package forwarder
 
 //@ func (g *Gtp5g) CreateURR(lSeid uint64, req *ie.IE) (err error)
 //@   locals urrid:uint32 | measureMethod:uint8 | rptTrig:report.ReportingTrigger | measurePeriod:time.Duration | attrs:[]nl.Attr | ies:[]*ie.IE | err:error | i:*ie.IE | v:[]byte | v:uint8 | err:error | v:nl.AttrList | err:error | v:nl.AttrList | err:error | oid:gtp5gnl.OID
-//@   requires g != nil && g.link != nil && g.ps != nil && req != nil
+//@   requires g != nil && g.link != nil && g.ps != nil && req != nil && g.ps.evtCh != nil && !closed(g.ps.evtCh)
 //@   modifies *
 //@   serves C03 C07 C15 C05
 //@   loop range(ies):
@@ -309,7 +309,7 @@ package forwarder
 
 //@ func (g *Gtp5g) UpdateURR(lSeid uint64, req *ie.IE) (usars []report.USAReport, err error)
 //@   locals urrid:uint64 | attrs:[]nl.Attr | usars:[]report.USAReport | ies:[]*ie.IE | err:error | i:*ie.IE | v:uint32 | err1:error | v:uint8 | err1:error | v:[]byte | err1:error | rptTrig:report.ReportingTrigger | v:time.Duration | err1:error | v:uint8 | err1:error | v:nl.AttrList | err1:error | v:nl.AttrList | err1:error | oid:gtp5gnl.OID | rs:[]gtp5gnl.USAReport | r:gtp5gnl.USAReport | usar:report.USAReport
-//@   requires g != nil && g.link != nil && g.ps != nil && req != nil
+//@   requires g != nil && g.link != nil && g.ps != nil && req != nil && g.ps.evtCh != nil && !closed(g.ps.evtCh)
 //@   ensures [perio] err == nil && ok(req.URRID()) && ok(req.ReportingTriggers()) && len(val(req.ReportingTriggers())) >= 1 ==>
 //@                     ((val(req.ReportingTriggers())[0] & 1 != 0) == (RuleKey(lSeid, 4, uint64(val(req.URRID()))) in PERIOREQ))
 //@   modifies *
@@ -340,7 +340,7 @@ package forwarder
 
 //@ func (g *Gtp5g) RemoveURR(lSeid uint64, req *ie.IE) (usars []report.USAReport, err error)
 //@   locals usars:[]report.USAReport | v:uint32 | err:error | oid:gtp5gnl.OID | rs:[]gtp5gnl.USAReport | r:gtp5gnl.USAReport | usar:report.USAReport
-//@   requires g != nil && g.link != nil && g.ps != nil && req != nil
+//@   requires g != nil && g.link != nil && g.ps != nil && req != nil && g.ps.evtCh != nil && !closed(g.ps.evtCh)
 //@   ensures [unreg] ok(req.URRID()) ==> !(RuleKey(lSeid, 4, uint64(val(req.URRID()))) in PERIOREQ)
 //@   modifies *
 //@   serves C03 C10 C07 C15 C05
